@@ -23,7 +23,7 @@ PREFIX_KINDS = {"mk_group": 6, "mk_object": 12, "add_data": 12, "add_comment": 2
 RO_KINDS = {"mk_group": 4, "mk_object": 5, "add_data": 6, "add_comment": 3, "add_file": 2, "set_values": 5, "rename": 5, "set_flag": 4, "set_meta": 4,
             "move": 3, "move_data": 2, "copy": 5, "rm_ws": 5, "rm_parent": 4, "pg_add": 4, "pg_rm": 2, "pg_del": 2, "pg_new": 2, "type_edit": 3, "mk_dup": 1,
             "observe": 6, "lookup": 4, "list": 4, "gc": 2,
-            "hole_attr": 4, "h_fetch_active": 3, "h_fetch_rplus": 2, "h_monitored_copy": 3, "h_uijson": 3, "copy_out": 4, "copy_in": 3, "reopen_r": 3, "coop_write": 0}
+            "hole_attr": 4, "h_fetch_active": 3, "h_fetch_rplus": 2, "h_monitored_copy": 3, "h_uijson": 3, "copy_out": 4, "copy_in": 3, "reopen_r": 3, "coop_write": 0, "h_save_as_refused": 2}
 
 
 class ReadOnlyScenario(BaseScenario):
@@ -45,7 +45,7 @@ class ReadOnlyScenario(BaseScenario):
         return {"version": rng.choices([2.1, 2.0, 1.0], [6, 3, 1])[0], "start": "disk", "two_ws": False, "gc": rng.choice(["none", "op", "io"]),
                 "gc_density": rng.choice([0.15, 0.4]), "keep_prob": rng.choice([0.0, 0.5]), "h5repack": rng.choices(["absent", "ok", "fail"], [3, 2, 1])[0],
                 "n_prefix": rng.choice([4, 8, 12]), "n_ops": rng.choice([6, 12, 24]), "tidy": True, "coopen": rng.random() < 0.1,
-                "reopen_after_refusal": rng.random() < 0.75, "disabled": []}
+                "reopen_after_refusal": rng.random() < 0.75, "disabled": [], "r_via_open": rng.random() < 0.4}
 
     def simplify_config(self, cfg):
         out = []
@@ -107,7 +107,11 @@ class ReadOnlyScenario(BaseScenario):
                     writer = Workspace(path, mode="r+")     # a writable handle on the same file, same process
                     sim.probe("coopen")
                     sim.fault("coopen_rplus_handle")
-                ro = Workspace(path, mode="r")
+                ro = self.open_ro(cfg, path)
+                if cfg.get("r_via_open"):
+                    sim.probe("r_via_open")
+                    if rawgeoh5.file_sha256(path) != base_sha:
+                        raise Violation("C09", "noop_session_wrote", "opening and closing a workspace without any call changed the file's bytes", {})
                 handle.ws = ro
                 self.check_mode(ro, "open")
                 world.weights = lambda: dict(RO_KINDS)
@@ -147,7 +151,7 @@ class ReadOnlyScenario(BaseScenario):
                             if cfg.get("reopen_after_refusal"):
                                 world.drop_all()
                                 ro.close()
-                                ro = Workspace(path, mode="r")
+                                ro = self.open_ro(cfg, path, ro)
                                 handle.ws = ro
                                 suspended = False
                             else:
@@ -162,7 +166,10 @@ class ReadOnlyScenario(BaseScenario):
                         # differ afterwards, the byte layout may (re-baseline)
                         ro.close()
                         sem_now = rawgeoh5.digests(rawgeoh5.read(path))
-                        ro.open()
+                        if cfg.get("r_via_open"):
+                            ro.open(mode="r")
+                        else:
+                            ro.open()
                         if sem_now != base_sem:
                             raise Violation("C10", "content_changed", "the stored content changed across a helper block that re-opened the workspace 'r+' without any request to write",
                                             {"op": kind})
@@ -216,6 +223,22 @@ class ReadOnlyScenario(BaseScenario):
                 pass
         return {"status": status, "violation": violation, "suspect": suspect,
                 "program": {"config": cfg, "prefix": executed_prefix, "ops": executed}, "stats": stats, "digest": digest}
+
+    @staticmethod
+    def open_ro(cfg, path, existing=None):
+        """The read-only handle: Workspace(path, mode='r'), or -- r_via_open -- a workspace constructed with the default
+        mode, closed, and opened read-only with open(mode='r') (its constructor mode is then r+)."""
+        from geoh5py import Workspace
+
+        if not cfg.get("r_via_open"):
+            return Workspace(path, mode="r")
+        if existing is None:
+            existing = Workspace(path)      # default mode; an open / close without any call in between writes nothing
+            existing.close()
+        elif existing._geoh5:  # pylint: disable=protected-access
+            existing.close()
+        existing.open(mode="r")
+        return existing
 
     @staticmethod
     def check_mode(ro, where):
@@ -309,8 +332,23 @@ class ReadOnlyScenario(BaseScenario):
         if kind == "reopen_r":
             world.drop_all()
             ro.close()
-            handle.ws = Workspace(path, mode="r")
+            handle.ws = self.open_ro(world.cfg, path, ro)
             sim.probe("reopen_r")
+            return "reopened"
+        if kind == "h_save_as_refused":
+            # saving under a name that exists is refused; whatever state that leaves, the handle is not writable afterwards
+            world.drop_all()
+            try:
+                ro.save_as(path)
+                raised = False
+            except Exception:  # pylint: disable=broad-except
+                raised = True
+            if not raised:
+                raise Violation("C10", "write_not_refused", "save_as onto an existing file did not raise", {"op": "save_as", "cls": ""})
+            sim.probe("save_as_refused")
+            if ro._geoh5:  # pylint: disable=protected-access
+                self.check_mode(ro, "after a refused save_as")
+            handle.ws = self.open_ro(world.cfg, path, ro) if world.cfg.get("r_via_open") else Workspace(path, mode="r")
             return "reopened"
         if kind == "coop_write":
             return "skipped"
@@ -320,7 +358,10 @@ class ReadOnlyScenario(BaseScenario):
             world.drop_all()
             with fetch_active_workspace(ro, mode="r+"):
                 pass
-            ro.open()
+            if world.cfg.get("r_via_open"):
+                ro.open(mode="r")       # (its constructor mode is the default one: a plain open() would rightly be writable)
+            else:
+                ro.open()
             sim.probe("helper_fetch_rplus")
             return "reopened"
         if kind == "h_fetch_active":
@@ -424,6 +465,6 @@ class ReadOnlyScenario(BaseScenario):
             if world.cfg.get("reopen_after_refusal"):
                 world.drop_all()
                 handle.ws.close()
-                handle.ws = Workspace(path, mode="r")
+                handle.ws = self.open_ro(world.cfg, path, handle.ws)
             return "refused"
         return "skipped"
